@@ -405,7 +405,7 @@ func RunCase(c *Case) (err error) {
 	if c.Conc != nil {
 		return runConc(c)
 	}
-	root, e := os.MkdirTemp("/tmp", "c14-")
+	root, e := os.MkdirTemp("", "c14-")
 	if e != nil {
 		return fmt.Errorf("harness: %v", e)
 	}
